@@ -36,12 +36,15 @@ type Party interface {
 	advance()
 	lock()
 	unlock()
+	setPreStart()
+	hadPreStart() bool
 }
 
 type BaseParty struct {
 	mtx        sync.Mutex
 	rnd        Round
 	FirstRound Round
+	preStart   bool // a message was stored before Start()
 }
 
 func (p *BaseParty) Running() bool {
@@ -105,6 +108,14 @@ func (p *BaseParty) advance() {
 	p.rnd = p.rnd.NextRound()
 }
 
+func (p *BaseParty) setPreStart() {
+	p.preStart = true
+}
+
+func (p *BaseParty) hadPreStart() bool {
+	return p.preStart
+}
+
 func (p *BaseParty) lock() {
 	p.mtx.Lock()
 }
@@ -140,7 +151,26 @@ func BaseStart(p Party, task string, prepare ...func(Round) *Error) *Error {
 	defer func() {
 		common.Logger.Debugf("party %s: %s round %d finished", p.round().Params().PartyID(), task, 1)
 	}()
-	return p.round().Start()
+	if err := p.round().Start(); err != nil {
+		return err
+	}
+	// Messages that were delivered before Start() are already stored. Look at them now, exactly as
+	// BaseUpdate would on the next delivery; otherwise a party whose whole first round arrived early
+	// (a new committee member in resharing) waits forever for a delivery that never comes.
+	for p.round() != nil {
+		if _, err := p.round().Update(); err != nil {
+			return err
+		}
+		if !p.hadPreStart() || !p.round().CanProceed() {
+			break
+		}
+		if p.advance(); p.round() != nil {
+			if err := p.round().Start(); err != nil {
+				return err
+			}
+		}
+	}
+	return nil
 }
 
 // an implementation of Update that is shared across the different types of parties (keygen, signing, dynamic groups)
@@ -183,5 +213,6 @@ func BaseUpdate(p Party, msg ParsedMessage, task string) (ok bool, err *Error) {
 		}
 		return r(true, nil)
 	}
+	p.setPreStart() // stored before Start(): BaseStart will look at it
 	return r(true, nil)
 }
